@@ -49,7 +49,7 @@ def mc_configs(tier):
                                              FillModes={'absent', 'zero', 'rank1', 'gen', 'diag'}, NSeeds=1,
                                              Dtypes={'complex', 'int'}, QTs={0, 1} if quick else {1}, QModes={'NN'},
                                              IQs='<-IQPlus', Labs={False},
-                                             Ops={'svd', 'qr', 'lq', 'pinv', 'polar', 'ortho', 'eig'}), 3 if quick else 2))
+                                             Ops={'svd', 'qr', 'lq', 'pinv', 'polar', 'ortho', 'eig'}), 5 if quick else 2))
     # (3) square matrices with contractible legs: eigen-decompositions, expm, speigs
     out.append(('square', base_constants(Kinds={'herm', 'sq', 'nil', 'ipi2'}, MaxSize=2, MaxBlocks=2, MaxDim=3 if quick else 4,
                                          Mods='<-ModsU1' if quick else '<-ModsU1Z2',
@@ -196,7 +196,7 @@ def check(ctx):
     # Z3 (charge shifts wrap around): all pairs of legs with <= 2 blocks, non-zero qtotal_LR / qtotal_Q, random options
     jobs.append(('rect-z3', base_constants(Mods='<-ModsZ3', QTs={0, 1, 2}, QX={1, 2}, FillModes={'gen', 'zero'},
                                            Ops={'svd', 'qr', 'lq'}, QModes={'LN', 'NR', 'LR'}, Labs={False},
-                                           SampPar=1 if quick else 3, SampMode=1, SampOpt=5 if quick else 12), 1, True))
+                                           SampPar=1 if quick else 3, SampMode=1, SampOpt=3 if quick else 12), 1, True))
     jobs = [j for j in jobs if not only or j[0] in only]
     # the TLC runs are independent: start them together, replay each dump as soon as it is complete.
     # (-coverage slows TLC about 4x here: per-action counts are taken from the dumped reachable states instead)
